@@ -608,6 +608,13 @@ Definition pass_entry (f' : fdl) (w' : W) : Prop :=
 Lemma pass_entry_other f' w' : in_pass (f_state f') = false -> pass_entry f' w'.
 Proof. unfold pass_entry. destruct (f_state f'); cbn; try discriminate; intros _; exact I. Qed.
 
+(* neither in a hand-over nor claiming *)
+Definition quiet_kind (s : state) : bool :=
+  match s with PassToken _ _ | CheckTokenPass _ | ClaimToken _ => false | _ => true end.
+
+Lemma pe_other f' w' : quiet_kind (f_state f') = true -> pass_entry f' w' /\ kind_of (f_state f') <> KClaimToken.
+Proof. unfold pass_entry. destruct (f_state f'); cbn; try discriminate; intros _; split; try exact I; discriminate. Qed.
+
 Lemma heard_not_in_pass s : heard_kind s -> in_pass s = false.
 Proof. destruct s; cbn; try contradiction; reflexivity. Qed.
 
@@ -731,7 +738,7 @@ Definition is_use (s : state) : Prop := exists tk fa fcd, s = UseToken tk fa fcd
 
 Lemma app_transmit_entry f now (w : W) idx app hp f' w' d :
   is_use (f_state f) -> app_transmit_telegram A ops f now w idx app hp = Ok (f', w', d) ->
-  if d then in_pass (f_state f') = false else (f' = f /\ w_tx w' = w_tx w).
+  if d then quiet_kind (f_state f') = true else (f' = f /\ w_tx w' = w_tx w).
 Proof.
   intros [tk [fa [fcd Hst]]] H. unfold app_transmit_telegram in H.
   destruct (a_tx ops app now (f_p f) hp) as [[app' r]| |]; cbn [bind] in H; try discriminate H.
@@ -749,7 +756,7 @@ Qed.
 
 Lemma apps_loop_entry n : forall f now (w : W) hp f' w' d,
   is_use (f_state f) -> apps_transmit_loop A ops n f now w hp = Ok (f', w', d) ->
-  if d then in_pass (f_state f') = false else (is_use (f_state f') /\ w_tx w' = w_tx w).
+  if d then quiet_kind (f_state f') = true else (is_use (f_state f') /\ w_tx w' = w_tx w).
 Proof.
   induction n as [|n IH]; intros f now w hp f' w' d Hu H; cbn [apps_transmit_loop] in H.
   - injection H as <- <- <-. split; [exact Hu|reflexivity].
@@ -767,8 +774,8 @@ Proof.
         destruct d; [exact H|]. destruct H as [Hu' Htx']. split; [exact Hu'|]. rewrite Htx'. exact Htx1.
 Qed.
 
-Lemma do_use_token_entry f now (w : W) f' w' :
-  w_tx w = None -> do_use_token A ops f now w = Ok (f', w') -> pass_entry f' w'.
+Lemma do_use_token_entry2 f now (w : W) f' w' :
+  w_tx w = None -> do_use_token A ops f now w = Ok (f', w') -> pass_entry f' w' /\ kind_of (f_state f') <> KClaimToken.
 Proof.
   intros Hw H. unfold do_use_token, assert_entry in H.
   destruct (f_state f) as [ | | | |tk fa fcd| | | | | ] eqn:Es; cbn [kind_of do_fn_entry state_kind_eqb bind get_use_token] in H; try discriminate H.
@@ -785,10 +792,10 @@ Proof.
   destruct (wait_synchronization_pause f1 now) as [[f2 wait]| |] eqn:Ew; cbn [bind] in H; try discriminate H.
   apply wait_sync_same in Ew. destruct Ew as [[_ [_ [_ [_ [Hs2 _]]]]] _].
   destruct wait.
-  - injection H as <- <-. apply pass_entry_other. rewrite Hs2, Hs1. reflexivity.
+  - injection H as <- <-. apply pe_other. rewrite Hs2, Hs1. reflexivity.
   - rewrite Hs2, Hs1 in H. cbn [get_use_token bind] in H.
     match type of H with bind ?x _ = _ => destruct x as [[[f3 w3] d]| |] eqn:E3 end; cbn [bind] in H; try discriminate H.
-    assert (H3 : if d then in_pass (f_state f3) = false else (is_use (f_state f3) /\ w_tx w3 = None)).
+    assert (H3 : if d then quiet_kind (f_state f3) = true else (is_use (f_state f3) /\ w_tx w3 = None)).
     { destruct (now <? f_end_tht f2).
       - unfold set_first_cycle_done in E3. rewrite Hs2, Hs1 in E3. cbn [get_use_token bind] in E3.
         unfold apps_transmit_telegram in E3.
@@ -801,13 +808,17 @@ Proof.
           destruct d; [exact E3|]. destruct E3 as [U T]. split; [exact U|]. rewrite T. exact Htx1.
         + injection E3 as <- <- <-. split; [rewrite Hs2, Hs1; eexists; eexists; eexists; reflexivity|exact Htx1]. }
     destruct d.
-    + injection H as <- <-. apply pass_entry_other. exact H3.
+    + injection H as <- <-. apply pe_other. exact H3.
     + destruct H3 as [[tk3 [fa3 [fcd3 Hs3]]] Htx3]. apply trans_spec in H. destruct H as [s' [Ht [-> ->]]].
-      rewrite Hs3 in Ht. cbn in Ht. injection Ht as <-. unfold pass_entry. cbn. split; [reflexivity|exact Htx3].
+      rewrite Hs3 in Ht. cbn in Ht. injection Ht as <-. split; [unfold pass_entry; cbn; split; [reflexivity|exact Htx3]|cbn; discriminate].
 Qed.
 
-Lemma do_await_data_response_entry f now (w : W) f' w' :
-  w_tx w = None -> do_await_data_response A ops f now w = Ok (f', w') -> pass_entry f' w'.
+Lemma do_use_token_entry f now (w : W) f' w' :
+  w_tx w = None -> do_use_token A ops f now w = Ok (f', w') -> pass_entry f' w'.
+Proof. intros Hw H. exact (proj1 (do_use_token_entry2 f now w f' w' Hw H)). Qed.
+
+Lemma do_await_data_response_entry2 f now (w : W) f' w' :
+  w_tx w = None -> do_await_data_response A ops f now w = Ok (f', w') -> pass_entry f' w' /\ kind_of (f_state f') <> KClaimToken.
 Proof.
   intros Hw H. unfold do_await_data_response, assert_entry in H.
   destruct (f_state f) as [ | | | | | |address tk fa| | | ] eqn:Es; cbn [kind_of do_fn_entry state_kind_eqb bind get_await_data_response] in H; try discriminate H.
@@ -821,9 +832,9 @@ Proof.
       apply trans_spec in Et. destruct Et as [s' [Ht [-> ->]]].
       cbn [sync_pending_bytes set_pending f_state] in Ht. rewrite Ms, Es in Ht. cbn in Ht. injection Ht as <-.
       unfold set_first_cycle_done in H. cbn [set_st f_state get_use_token bind] in H.
-      injection H as <- <-. apply pass_entry_other. reflexivity.
+      injection H as <- <-. apply pe_other. reflexivity.
     + apply trans_spec in H. destruct H as [s' [Ht [-> ->]]]. rewrite Ms, Es in Ht. cbn in Ht. injection Ht as <-.
-      apply pass_entry_other. reflexivity.
+      apply pe_other. reflexivity.
   - destruct (check_slot_expired _ now) as [[f1 expired]| |] eqn:Ec; cbn [bind] in H; try discriminate H.
     apply check_slot_expired_same in Ec. destruct Ec as [_ [_ [_ [_ [Hs1 _]]]]].
     cbn [sync_pending_bytes set_pending f_state] in Hs1.
@@ -833,32 +844,40 @@ Proof.
       apply trans_spec in Et. destruct Et as [s' [Ht [-> ->]]].
       rewrite Hs1, Es in Ht. cbn in Ht. injection Ht as <-.
       unfold set_first_cycle_done in H. cbn [set_st f_state get_use_token bind] in H.
-      eapply do_use_token_entry; [|exact H].
+      eapply do_use_token_entry2; [|exact H].
       cbn [w_tx note log_call set_app set_rx]. match goal with |- context [if ?c then _ else _] => destruct c end; exact Hw.
-    + injection H as <- <-. apply pass_entry_other. rewrite Hs1, Es. reflexivity.
+    + injection H as <- <-. apply pe_other. rewrite Hs1, Es. reflexivity.
 Qed.
 
-Lemma do_await_status_response_entry f now (w : W) f' w' :
-  w_tx w = None -> do_await_status_response A f now w = Ok (f', w') -> pass_entry f' w'.
+Lemma do_await_data_response_entry f now (w : W) f' w' :
+  w_tx w = None -> do_await_data_response A ops f now w = Ok (f', w') -> pass_entry f' w'.
+Proof. intros Hw H. exact (proj1 (do_await_data_response_entry2 f now w f' w' Hw H)). Qed.
+
+Lemma do_await_status_response_entry2 f now (w : W) f' w' :
+  w_tx w = None -> do_await_status_response A f now w = Ok (f', w') -> pass_entry f' w' /\ kind_of (f_state f') <> KClaimToken.
 Proof.
   intros Hw H. unfold do_await_status_response, assert_entry in H.
   destruct (f_state f) as [ | | | | | | | | |address] eqn:Es; cbn [kind_of do_fn_entry state_kind_eqb bind get_await_status_response_address] in H; try discriminate H.
   destruct (await_gap_poll_response A f now w address) as [[[f1 w1] r]| |] eqn:Ea; cbn [bind] in H; try discriminate H.
   apply await_gap_poll_response_frame in Ea. destruct Ea as [_ [_ [Hs1 [Htx1 _]]]].
   destruct r.
-  - injection H as <- <-. apply pass_entry_other. rewrite Hs1, Es. reflexivity.
+  - injection H as <- <-. apply pe_other. rewrite Hs1, Es. reflexivity.
   - match type of H with context [trans A ?a ?b ?c] => destruct (trans A a b c) as [[f2 w2]| |] eqn:Et end; cbn [bind] in H; try discriminate H.
     apply trans_spec in Et. destruct Et as [s' [Ht [-> ->]]]. rewrite Hs1, Es in Ht. cbn in Ht. injection Ht as <-.
     apply (do_pass_token_spec _ now _ f' w' false AttFirst) in H; [|reflexivity|cbn; rewrite Htx1; exact Hw].
     destruct H as [[_ [_ [_ [_ [Hs _]]]]] Htx _ _ _|addr Hdg _ _ _ _ _ _ _ _|[r' [_ [_ [Htx [Hs _]]]]]].
-    + unfold pass_entry. rewrite Hs. cbn. split; [reflexivity|exact Htx].
+    + split; [unfold pass_entry; rewrite Hs; cbn; split; [reflexivity|exact Htx]|rewrite Hs; cbn; discriminate].
     + discriminate Hdg.
-    + unfold pass_entry. rewrite Hs. destruct (r_ns r' =? _); [exact I|]. split; [reflexivity|rewrite Htx; discriminate].
+    + split; [unfold pass_entry|]; rewrite Hs; destruct (r_ns r' =? _); try exact I; try (cbn; discriminate). split; [reflexivity|rewrite Htx; discriminate].
   - apply trans_spec in H. destruct H as [s' [Ht [-> ->]]]. rewrite Hs1, Es in Ht. cbn in Ht. injection Ht as <-.
-    unfold pass_entry. cbn. split; [reflexivity|rewrite Htx1; exact Hw].
+    split; [unfold pass_entry; cbn; split; [reflexivity|rewrite Htx1; exact Hw]|cbn; discriminate].
   - apply trans_spec in H. destruct H as [s' [Ht [-> _]]]. rewrite Hs1, Es in Ht. cbn in Ht. injection Ht as <-.
-    apply pass_entry_other. reflexivity.
+    apply pe_other. reflexivity.
 Qed.
+
+Lemma do_await_status_response_entry f now (w : W) f' w' :
+  w_tx w = None -> do_await_status_response A f now w = Ok (f', w') -> pass_entry f' w'.
+Proof. intros Hw H. exact (proj1 (do_await_status_response_entry2 f now w f' w' Hw H)). Qed.
 
 (* a whole poll from a state outside the hand-over *)
 Lemma poll_entry f now pin (apps : list A) f' o a c :
